@@ -591,7 +591,8 @@ class DocumentSetPreparator:
     def create_file_offset_table(self, document_file_path, expected_number_of_lines):
         # just rebuild the file every time for the time being. Later on, we might check the data file fingerprint to avoid it
         lines_read = io.prepare_file_offset_table(document_file_path)
-        if lines_read and lines_read != expected_number_of_lines:
+        # lines_read is None if the offset table did not have to be rebuilt; an empty file has zero lines
+        if lines_read is not None and lines_read != expected_number_of_lines:
             io.remove_file_offset_table(document_file_path)
             raise exceptions.DataError(
                 f"Data in [{document_file_path}] for track [{self.track_name}] are invalid. "
